@@ -33,6 +33,17 @@ def configs(draw, tier="quick"):
             c["use_defaults"] = True
         elif draw(st.sampled_from([False, False, True])):
             c["state"] = ["features", draw(st.booleans())]      # features, one of them without any event callback
+        elif draw(st.sampled_from([False, False, True])) and all(s_["kind"] != "chain" for s_ in c["contracts"]):
+            # the library's features with default transformers fitted at construction; modest bounds (the fitting backtest
+            # draws random actions)
+            hi = draw(st.sampled_from([0.25, 0.5, 1.0 / 3]))
+            lo = draw(st.sampled_from([-hi, 0.0, -0.125]))
+            c["state"] = ["library", lo, hi]
+            c["space"] = ["box", lo, hi]
+            c["delay"] = 0
+            n_ = len(c["contracts"])
+            c["actions"] = [[min(hi, max(lo, w)) for w in a_] for a_ in c["actions"]]
+            c["action_type"] = "array64"
         if draw(st.sampled_from([False, False, True])):
             steps = len(c["gaps"])
             c["episode_length"] = draw(st.integers(1, max(1, steps - 2)))
@@ -46,6 +57,8 @@ def configs(draw, tier="quick"):
                 c["empty_points"] = [gi]
                 if draw(st.booleans()):
                     c["fold"] = [g[gi], g[-1]]
+        if c.get("state", ["rec"])[0] == "library":
+            c.pop("fold", None)        # fitting the transformers at construction runs an episode on the default fold
     return c
 
 
@@ -123,10 +136,20 @@ def first_diff(t1, t2):
 def run(case):
     res = Result()
     a, b = case["a"], case["b"]
-    # build everything first
-    A1, A2, A3 = E.build(a), E.build(a), E.build(a)
-    B1, B3 = E.build(b), E.build(b)
+    # (0) A built and run while it is the only environment that has ever existed for this case
+    def built(cfg, seed):
+        np.random.seed(seed)           # construction may itself run an episode (fit_transformers) with a sampled start
+        return E.build(cfg)
+
+    A0 = built(a, case["seed_a"])
+    ta0 = Stepper(A0, a["actions"], case["seed_a"]).run()
+    # build everything else first, then step
+    A1, A2, A3 = built(a, case["seed_a"]), built(a, case["seed_a"]), built(a, case["seed_a"])
+    B1, B3 = built(b, case["seed_b"]), built(b, case["seed_b"])
     ta = Stepper(A1, a["actions"], case["seed_a"]).run()
+    d0 = first_diff(ta0, ta)
+    if d0:
+        res.fail("an environment gives a different trace once other environments have been BUILT in the process: " + d0)
     tb = Stepper(B1, b["actions"], case["seed_b"]).run()
     # (3) second fresh build
     d = first_diff(ta, Stepper(A2, a["actions"], case["seed_a"]).run())
@@ -205,6 +228,10 @@ def run(case):
         res.tag("event-less-grid-timestep")
     if a.get("state", ["rec"])[0] == "features" or b.get("state", ["rec"])[0] == "features":
         res.tag("state-given-as-features")
+    if a.get("state", ["rec"])[0] == "library" or b.get("state", ["rec"])[0] == "library":
+        res.tag("library-features-with-fitted-transformers")
+    if a.get("state", ["rec"])[0] == "library" and b.get("state", ["rec"])[0] == "library":
+        res.tag("two-environments-with-library-features")
     if alternations >= 2:
         res.tag("interleaved")
     if any("exception" in s for s in ta):
